@@ -64,6 +64,28 @@ def gen(tier):
         steps.append(progs.step_scan(rng.choice(names)))
         scs.append(progs.scenario(len(scs) + 1, steps, exec_=ex, parallelism=rng.choice([0, 2]),
                                   machprocs=rng.choice([1, 2]) if ex == 'bigmachine' else 0, timeout_s=90))
+    # directed: a Discard of a result lands while a later run that uses it is being dispatched (between the
+    # evaluator handing out the consumer and the executor looking up where the dependency's output is)
+    for k in range(16 if tier == 'quick' else 160):
+        g0 = progs.Gen(rng)
+        p0, k0 = g0.program(rng.choice([0, 1]), taps=[])
+        if k0[0] == 'weak' or any(n['op'] in ('scanreader', 'head') for n in p0['nodes']):
+            continue
+        p0['taps'] = []
+        g = progs.Gen(rng, nargs=1, argkinds=[k0])
+        i = g.add(progs.N('arg', arg=0), k0[0], k0[1])
+        i = g.add(progs.N(rng.choice(['map', 'reshuffle', 'reduce']), **{'in': [i]}, f='inc' if g is None else 'sum'), 'bag', k0[1])
+        if g.nodes[i]['op'] == 'map':
+            g.nodes[i]['f'] = 'inc'
+        p1 = {'nodes': g.nodes, 'out': i, 'taps': []}
+        d = [0, 0, 1, 2, 3, 5, 8, 13][k % 8]
+        lane2 = ([{'do': 'sleep', 'as': '', 'res': '', 'args': [], 'n': d}] if d else []) + [progs.step_discard('r0')]
+        steps = [progs.step_run('r0', p0), progs.step_par([[progs.step_run('r1', p1, ['r0'])], lane2]), progs.step_scan('r1')]
+        scs.append(progs.scenario(len(scs) + 1, steps, exec_='bigmachine', parallelism=2, machprocs=rng.choice([1, 2]), timeout_s=60))
+    # directed: a diamond of result reuse with paths of different length, the last run needing machines that have
+    # not seen the earlier invocations (they must receive them in dependency order)
+    for sc in progs.diamond_scenarios(rng, 4 if tier == 'quick' else 30, len(scs) + 1):
+        scs.append(sc)
     return scs
 
 
